@@ -117,7 +117,7 @@ func mutations(kind string, base doc, pathFields, verFields, digestFields []stri
 				delete(m, k)
 				add(fmt.Sprintf("path %s key %s renamed to %q", pf, k, bk), d)
 			}
-			for _, ln := range []int{0, 1, 31, 33, 64} {
+			for _, ln := range []int{0, 1, 7, 31, 33, 64} {
 				d := clone(base).(doc)
 				d[pf].(doc)[k] = digestOfLen(ln)
 				add(fmt.Sprintf("path %s entry %s digest of %d bytes", pf, k, ln), d)
@@ -151,7 +151,7 @@ func mutations(kind string, base doc, pathFields, verFields, digestFields []stri
 		add("path "+pf+" with 1200 entries", d)
 	}
 	for _, df := range digestFields {
-		for _, ln := range []int{0, 1, 31, 33, 64, 300} {
+		for _, ln := range []int{0, 1, 2, 3, 7, 8, 9, 16, 31, 33, 64, 300} {
 			d := clone(base).(doc)
 			d[df] = digestOfLen(ln)
 			add(fmt.Sprintf("digest %s of %d bytes", df, ln), d)
